@@ -165,6 +165,7 @@ func genBatch(r *vh.Rand, n int, boundary bool) []AlertJ {
 		if boundary && r.Chance(1, 4) {
 			a.EndOff = vh.Pick(r, []int64{0, -1, 1})
 		}
+		a.Timeout = r.Bool()
 		out = append(out, a)
 	}
 	return out
@@ -172,18 +173,33 @@ func genBatch(r *vh.Rand, n int, boundary bool) []AlertJ {
 
 // payloadFaithful: every alert of the payload built on this call carries exactly the labels and annotations of
 // the batch alert it stands for ("" if so)
-func payloadFaithful(batch []AlertJ, sent []int, p *SeenData) string {
+func payloadFaithful(batch []AlertJ, sent []int, p *SeenData, start, at int64) string {
 	if p == nil {
 		return ""
 	}
 	if len(p.Alerts) != len(sent) {
 		return fmt.Sprintf("payload lists %d alerts, %d were handed over", len(p.Alerts), len(sent))
 	}
+	anyFiring := false
 	for k, i := range sent {
 		if i < 0 || !sameKV(p.Alerts[k].Labels, batch[i].Labels) || !sameKV(p.Alerts[k].Annots, batch[i].Annots) {
 			return fmt.Sprintf("alert %d of the payload has labels %v annotations %v, the batch alert has labels %v annotations %v",
 				k, p.Alerts[k].Labels, p.Alerts[k].Annots, batch[i].Labels, batch[i].Annots)
 		}
+		// its own status and times, as of the instant of this attempt
+		firing := !(batch[i].HasEnd && start+batch[i].EndOff <= at)
+		wantEnds := int64(0)
+		if !firing {
+			wantEnds = start + batch[i].EndOff
+		}
+		if p.Alerts[k].Firing != firing || p.Alerts[k].Ends != wantEnds || p.Alerts[k].Starts != start+batch[i].StartOff {
+			return fmt.Sprintf("alert %d of the payload is shown firing=%v endsAt=%d, the batch alert (timeout flag %v) is firing=%v with endsAt=%d at that instant",
+				k, p.Alerts[k].Firing, p.Alerts[k].Ends, batch[i].Timeout, firing, wantEnds)
+		}
+		anyFiring = anyFiring || firing
+	}
+	if p.Firing != anyFiring {
+		return fmt.Sprintf("payload status firing=%v but some listed alert fires=%v", p.Firing, anyFiring)
 	}
 	return ""
 }
@@ -453,7 +469,7 @@ func runRetry(t *testing.T, c *Case) result {
 		if a.At > dl {
 			viol("retry-attempt-after-deadline", fmt.Sprintf("attempt %d started %dns after the flush deadline", k+1, a.At-dl))
 		}
-		if why := payloadFaithful(rc.Alerts, a.Sent, sn.calls[k].payload); why != "" {
+		if why := payloadFaithful(rc.Alerts, a.Sent, sn.calls[k].payload, rc.Start, a.At); why != "" {
 			viol("retry-payload-not-the-batch", fmt.Sprintf("attempt %d: %s", k+1, why))
 		}
 		if k > 0 {
